@@ -22,7 +22,10 @@ pub struct HbCase {
     pub delay_ms: u64,
     /// None = healthy peer for 50 intervals; Some(t) = both directions go dead at virtual time t
     pub silence_at_ms: Option<u64>,
-    /// 0 = no stream traffic, 1 = light traffic both ways, 2 = client floods its outbound pipe (64 KiB capacity)
+    /// 0 = no stream traffic, 1 = light traffic both ways, 2 = client floods its outbound pipe (64 KiB capacity),
+    /// 3 = no stream traffic, every keep-alive request is a padded packet of 3000 bytes and the client's outbound
+    ///     link is slow (256-byte pieces, 10 ms each): the request frame is answered while the rest of its packet is
+    ///     still being written
     pub traffic: u8,
     pub label: String,
 }
@@ -61,16 +64,37 @@ async fn run_async(c: HbCase) -> HbObs {
     let ms = |t: Instant| t.duration_since(t0).as_millis() as u64;
     let delay = Duration::from_millis(c.delay_ms);
     // client -> [a] -> delay -> [a2] -> server ; server -> [b] -> delay -> [b2] -> client
-    let a_cfg = if c.traffic == 2 { PipeCfg { capacity: 65536, ..PipeCfg::plain() } } else { PipeCfg::plain() };
+    let a_cfg = match c.traffic {
+        2 => PipeCfg { capacity: 65536, ..PipeCfg::plain() },
+        3 => PipeCfg { capacity: 256, ..PipeCfg::plain() },
+        _ => PipeCfg::plain(),
+    };
     let (a_w, a_r, a_h) = pipe(a_cfg);
     let (a2_w, a2_r, _a2_h) = pipe(PipeCfg::plain());
     let (b_w, b_r, _b_h) = pipe(PipeCfg::plain());
     let (b2_w, b2_r, b2_h) = pipe(PipeCfg::plain());
-    mempipe::spawn_delay_link(a_r, a2_w, delay);
+    if c.traffic == 3 {
+        mempipe::spawn_slow_link(a_r, a2_w, delay, 256, 10);
+    } else {
+        mempipe::spawn_delay_link(a_r, a2_w, delay);
+    }
     mempipe::spawn_delay_link(b_r, b2_w, delay);
-    let (server, mut new_streams, _st) = engine::start_server(a2_r, b_w, engine::no_padding());
-    let hb = SessionHeartbeatConfig { interval: Duration::from_millis(c.interval_ms), timeout: Duration::from_millis(c.timeout_ms) };
-    let client = match engine::start_client(b2_r, a_w, engine::no_padding(), Some(hb)).await {
+    let client_padding = if c.traffic == 3 {
+        // every packet up to number 400 is padded to 3000 bytes (the keep-alive requests among them)
+        let mut text = String::from("stop=401\n0=30-30");
+        for k in 1..=400 {
+            text.push_str(&format!("\n{k}=3000-3000"));
+        }
+        engine::padding_from(&text).expect("scheme")
+    } else {
+        engine::no_padding()
+    };
+    // same scheme on the server so that it does not push its own (a server never pads)
+    let (server, mut new_streams, _st) = engine::start_server(a2_r, b_w, client_padding.clone());
+    // timeout_ms == u64::MAX stands for Duration::MAX ("never give up")
+    let hb = SessionHeartbeatConfig { interval: Duration::from_millis(c.interval_ms), timeout: if c.timeout_ms == u64::MAX { Duration::MAX } else { Duration::from_millis(c.timeout_ms) } };
+    let tcap = if c.timeout_ms == u64::MAX { 0 } else { c.timeout_ms };
+    let client = match engine::start_client(b2_r, a_w, client_padding, Some(hb)).await {
         Ok(s) => s,
         Err(e) => {
             obs.problems.push(("setup".into(), "start_client_failed".into(), e.to_string()));
@@ -171,7 +195,7 @@ async fn run_async(c: HbCase) -> HbObs {
         });
     }
     let run_for = match c.silence_at_ms {
-        None => 50 * c.interval_ms + 3 * c.timeout_ms + 2 * c.delay_ms,
+        None => 50 * c.interval_ms + 3 * tcap + 2 * c.delay_ms,
         Some(s) => s + c.timeout_ms + 4 * c.interval_ms + 4 * c.delay_ms + 1000,
     };
     // wait until the session closes or the observation window ends
@@ -225,7 +249,7 @@ pub fn run_case(c: &HbCase) -> HbObs {
 
 pub fn judge(c: &HbCase, o: &mut HbObs) {
     let rel = if c.timeout_ms < c.interval_ms { "timeout_lt_interval" } else if c.timeout_ms == c.interval_ms { "timeout_eq_interval" } else { "timeout_gt_interval" };
-    let traffic = ["no_traffic", "light_traffic", "outbound_flooded"][c.traffic as usize];
+    let traffic = ["no_traffic", "light_traffic", "outbound_flooded", "padded_requests_over_slow_link"][c.traffic as usize];
     match c.silence_at_ms {
         None => {
             if let Some(t) = o.closed_at_ms {
@@ -237,7 +261,7 @@ pub fn judge(c: &HbCase, o: &mut HbObs) {
             } else {
                 // the run must really have exchanged keep-alives: with RTT below one interval every tick is answered
                 // before the next one; with a larger RTT at least one exchange per (RTT + interval) is expected
-                let window = 50 * c.interval_ms + 3 * c.timeout_ms;
+                let window = 50 * c.interval_ms + 3 * if c.timeout_ms == u64::MAX { 0 } else { c.timeout_ms };
                 let want = (window / (2 * c.delay_ms + c.interval_ms).max(1)).saturating_sub(2).min(40) as usize;
                 if o.responses_delivered < want.max(1) {
                     o.problems.push(("setup".into(), "too_few_keepalives".into(), format!("only {} requests / {} responses in the observation window (expected >= {})", o.requests_on_wire, o.responses_delivered, want.max(1))));
@@ -292,8 +316,12 @@ pub fn cases(ctx: Ctx) -> Vec<HbCase> {
                 }
                 let rtt = (timeout_ms as f64 * frac) as u64;
                 let delay_ms = rtt / 2;
-                for traffic in 0..3u8 {
+                for traffic in 0..4u8 {
                     if quick && traffic == 2 && fi != 0 {
+                        continue;
+                    }
+                    // a 3000-byte packet takes 120 ms on the slow link: only where that is well inside the timeout
+                    if traffic == 3 && (timeout_ms < 1000 || (quick && fi > 1)) {
                         continue;
                     }
                     let mk = |silence: Option<u64>, label: &str| HbCase { interval_ms, timeout_ms, delay_ms, silence_at_ms: silence, traffic, label: label.to_string() };
@@ -308,6 +336,14 @@ pub fn cases(ctx: Ctx) -> Vec<HbCase> {
                         v.push(mk(Some(interval_ms - 1), "silent_just_before_second_request"));
                     }
                 }
+            }
+        }
+    }
+    // the largest timeout there is: a healthy peer, nothing may happen (in particular no arithmetic overflow)
+    for interval_ms in [1000u64, 10_000] {
+        for delay_ms in [0u64, 100] {
+            for traffic in [0u8, 1] {
+                v.push(HbCase { interval_ms, timeout_ms: u64::MAX, delay_ms, silence_at_ms: None, traffic, label: "healthy_timeout_duration_max".into() });
             }
         }
     }
@@ -346,7 +382,7 @@ pub fn run(ctx: Ctx) -> Report {
                 if run::is_harness_panic(&p) {
                     rep.inconclusive(format!("harness panic: {p}"));
                 } else {
-                    rep.violate("liveness", "any", "panic", p, c.describe());
+                    rep.violate("liveness", &format!("panic+{}", c.label), "panic", p, c.describe());
                 }
             }
         }
@@ -357,7 +393,7 @@ pub fn run(ctx: Ctx) -> Report {
 pub fn meta() -> CheckMeta {
     CheckMeta {
         level: "exploration",
-        rule: "case = (interval, timeout) from the grid {1,2,5,10,30,60,300} s squared (quick: {1,5,30,60}), RTT in {0, 0.1, 0.5, 0.99} x timeout realised as a one-way delay on both directions, stream traffic {none, light both ways, client floods a 64 KiB outbound pipe}, and the peer healthy for 50 intervals or both directions going dead before the first request / between a request and its response / right after an answer / mid-interval / just before the second request. Real client Session (SessionHeartbeatConfig) against a real server Session under virtual time. Oracle: healthy => never closed and >= 40 keep-alive exchanges observed on the recorded pipes; silent => closed, blocked reader released and pending open failed by (time the last response was delivered, read from the pipe log) + timeout + interval + 1 ms. Every grid point is a distinct non-trivial case.".into(),
+        rule: "case = (interval, timeout) from the grid {1,2,5,10,30,60,300} s squared (quick: {1,5,30,60}), RTT in {0, 0.1, 0.5, 0.99} x timeout realised as a one-way delay on both directions, stream traffic {none, light both ways, client floods a 64 KiB outbound pipe}, and the peer healthy for 50 intervals or both directions going dead before the first request / between a request and its response / right after an answer / mid-interval / just before the second request. Real client Session (SessionHeartbeatConfig) against a real server Session under virtual time. Oracle: healthy => never closed and >= 40 keep-alive exchanges observed on the recorded pipes; silent => closed, blocked reader released and pending open failed by (time the last response was delivered, read from the pipe log) + timeout + interval + 1 ms. Every grid point is a distinct non-trivial case. Client level (real time): sessions made by the real Client (keep-alive interval = check_interval, timeout = idle_timeout; timeout above / equal to / below the interval) behind a relay with a 'silent' switch, carrying a stream so that pool housekeeping has no say: healthy for 6 x max(interval, timeout) with pings (must stay open and working), then the path falls silent: closed and the blocked reader released within 2 x (interval + timeout) + 2 s; a failing case is re-run alone with doubled times before it is reported.".into(),
         assumptions: vec!["'dead' is modelled as a black hole in both directions (nothing delivered, nothing drained)".into(), "intervals/timeouts of 0 are excluded (tokio::time::interval panics on a zero period: configuration, not peer behaviour)".into()],
         floors: vec![("healthy_peer_cases", 40), ("silent_peer_cases", 100), ("keepalive_responses_delivered", 2000), ("dead_sessions_seen_closing", 20), ("client_level_sessions_watched", 3)],
         exhaustive: false,
@@ -443,6 +479,7 @@ async fn client_level_case(interval_ms: u64, timeout_ms: u64, scale: u64) -> Res
 
 pub fn run_client_level(ctx: Ctx) -> Report {
     let quick = ctx.tier == crate::report::Tier::Quick;
+    let panics_before = run::panic_log().len(); // panics of the session-level part were reported there
     run::case_begin("C14 client level");
     let mut rep = run::rt_block_on(8, async move {
         let mut rep = Report::new("C14");
@@ -477,7 +514,7 @@ pub fn run_client_level(ctx: Ctx) -> Report {
         }
         rep
     });
-    for p in run::panic_log() {
+    for p in run::panic_log().into_iter().skip(panics_before) {
         if !run::is_harness_panic(&p) {
             rep.violate("liveness", "client_level", "panic", p, json!({}));
         }
